@@ -142,6 +142,8 @@ def gen(rng, tier, mult=1):
     for i in range(n):
         yield T.gen_transfer_case(rng, script_style=["abort", "silent", "clean", "faulty", "edge", "random"][i % 6],
                                   simple_cfg=True, fault=(i % 3 == 0), bs_choices=[8, 16, 512])
+    for i in range(40 if tier == "quick" else 800):
+        yield T.gen_multi_case(rng)
 
 
 import http_common  # noqa: E402
